@@ -44,7 +44,14 @@ func genRaceCase(r *simrt.Rand, c *Case, tier string) *Case {
 	if len(cs) > 1 {
 		val = cs[r.Intn(len(cs))]
 	}
-	switch r.Intn(9) {
+	switch r.Intn(11) {
+	case 9:
+		c.Cmd = "print"
+	case 10:
+		c.Cmd = "check"
+		if r.P(0.5) {
+			c.Args = []string{"--write"}
+		}
 	case 8:
 		// infer on a target of several hundred bookings (code that goes parallel above a size)
 		c.Cmd = "infer"
